@@ -1,6 +1,6 @@
 # C16 -- declarative codec: the laws of every building block (bit-field
 # pair, integer pair, length exactness, error discipline, presence/length
-# protocol).  The universal over all *compositions* of blocks is not decided;
+# protocol, ownership of the decoded sequence).  The universal over all *compositions* of blocks is not decided;
 # these laws are the premises every composition relies on.
 #
 # Technique: a small path-sensitive symbolic walker over the method bodies
@@ -34,11 +34,15 @@ EXPLANATION = (
     "integer class table through the MRO, the complete decision tables of "
     "Field.from_bytes/to_bytes and of the Envelope tail check, the offset "
     "advance of Envelope/Sequence loops, the catch-all wrappers around every "
-    "field call, and the presence test `is False` preceding any length/decoder call.")
+    "field call, and the presence test `is False` preceding any length/decoder call. "
+    "R6 resolves the object Sequence.from_bytes returns through the walker's environment to its origin "
+    "(list created by the call / argument / default-argument object / class attribute / module-level "
+    "object) and demands that a decode never fills and returns one long-lived list that it only grows.")
 ASSUMPTIONS = [
     "the laws of each building block are decided, not the universal over all compositions of blocks (nesting, callbacks, chained variable lengths)",
     "int.from_bytes / int.to_bytes / bytes slicing / bytes.join have their documented Python semantics; int.to_bytes raises OverflowError for an unencodable value",
     "callbacks (get_pres/get_len/get_val) are pure functions of their arguments",
+    "R6: a default-argument object / class attribute / module-level object that no toolkit code mentions outside Sequence.from_bytes is not emptied by reflection (__defaults__, getattr, globals())",
     "ceil(sum/8): the derived-length term is tabulated exhaustively over bit sums 0..64 (the property's 1..4 octet layouts are 1..32), not proved for unbounded sums",
 ]
 
@@ -337,6 +341,8 @@ class Lw(X.PyLower):
                 if tgt is not None and tgt[0] == "v" and "." in tgt[1]:
                     recv, _, meth = tgt[1].rpartition(".")
                     return ("mcall", meth, self.st.get(V(recv), V(recv))) + self.args(e)
+                if tgt is None and f.id in ("list", "dict") and not e.args and not e.keywords:
+                    return (f.id,)                 # list() / dict(): the same fresh empty object as [] / {}
                 return ("call", f.id) + self.args(e)
             raise AnalysisError("callee outside the vocabulary: %s" % canon(e)[:60])
         if isinstance(e, (ast.ListComp, ast.GeneratorExp, ast.DictComp)):
@@ -784,9 +790,9 @@ def absent_value(atom, val):
 
 # ====================================================================== R1
 
-def r1_bitfields(L, repo):
+def r1_set_init(L, repo):
+    """R1 (group: BitFieldSet.__init__): offset/mask/length derivation of a bit-field set"""
     R = "C16.R1"
-    # ---- BitFieldSet.__init__ -------------------------------------------
     ci, fd = need(repo, "BitFieldSet", "__init__")
     fn = "BitFieldSet.__init__"
     L.fn(F, fn)
@@ -912,7 +918,10 @@ def r1_bitfields(L, repo):
              bad is None, fd.lineno)
     L.floor(R, "length derivations", n_len, 1)
 
-    # ---- BitField.enc_val / dec_val ------------------------------------
+
+def r1_field_pair(L, repo):
+    """R1 (group: BitField.enc_val / dec_val, spare bit-fields, BitField.__init__)"""
+    R = "C16.R1"
     MASK, OFF, VAL = V("self.mask"), V("self.offset"), V("self.val")
     NOVAL = is_(VAL, NONE)
     SRC = idx(V("$vals"), V("self.name"))
@@ -979,7 +988,10 @@ def r1_bitfields(L, repo):
                       show(o.st.env.get(V("self.val"), NONE)), line=fd.lineno)
             L.require(R, F, "BitField.__init__", "bit length is stored as given", "$bl", show(o.st.env.get(V("self.bl"), NONE)), line=fd.lineno)
 
-    # ---- BitFieldSet._to_bytes / _from_bytes ---------------------------
+
+def r1_set_pack(L, repo):
+    """R1 (group: BitFieldSet._to_bytes / _from_bytes): packing of the whole set"""
+    R = "C16.R1"
     ci, fd = need(repo, "BitFieldSet", "_to_bytes")
     fn = "BitFieldSet._to_bytes"
     L.fn(F, fn)
@@ -1070,9 +1082,9 @@ def norm_bytes_call(t):
 INT_RE = re.compile(r"^(Uint|Int)(\d+)(BE|LE)$")
 
 
-def r2_integers(L, repo):
+def r2_pair(L, repo):
+    """R2 (group: Uint._from_bytes / _to_bytes inverse pair)"""
     R = "C16.R2"
-    mod = repo.mod("codec")
     ci, fd = need(repo, "Uint", "_from_bytes")
     fn = "Uint._from_bytes"
     L.fn(F, fn)
@@ -1126,7 +1138,12 @@ def r2_integers(L, repo):
              show(FB), show(comp), comp == FB, fd.lineno)
         L.require(R, F, fn, "encoder and decoder use the same length, byte-order and sign attributes",
                   ("self.len", "self.BO", "self.SIGN"), tb[2:], line=fd.lineno)
-    # class table
+
+
+def r2_class_table(L, repo):
+    """R2 (group: the integer class table resolved through the MRO)"""
+    R = "C16.R2"
+    mod = repo.mod("codec")
     n = 0
     expected_base = {"Uint": (1, "big", False), "Int": (1, "big", True)}
     uint = repo.need_class("codec", "Uint")
@@ -1162,9 +1179,9 @@ def r2_integers(L, repo):
 
 # ====================================================================== R3 / R5
 
-def r3_length(L, repo):
+def r3_field(L, repo):
+    """R3 (group: Field.from_bytes / Field.to_bytes decision tables); returns the presence tests for R5"""
     R = "C16.R3"
-    # ---- Field.from_bytes -------------------------------------------------
     ci, fd = need(repo, "Field", "from_bytes")
     fn = "Field.from_bytes"
     L.fn(F, fn)
@@ -1247,7 +1264,12 @@ def r3_length(L, repo):
             if any(absent_value(P, p) for t, p in o.lits if t == P):
                 n = [show(c) for c in o.all_calls() if c != PRES]
                 L.ob("C16.R5", F, fn, "the absent path makes no encoder call", [], n, not n, fd.lineno)
-    # ---- Envelope._from_bytes ----------------------------------------------
+    return presence
+
+
+def r3_envelope(L, repo):
+    """R3 (group: Envelope._from_bytes offset advance and tail check, Envelope._to_bytes concatenation)"""
+    R = "C16.R3"
     ci, fd = need(repo, "Envelope", "_from_bytes")
     fn = "Envelope._from_bytes"
     L.fn(F, fn)
@@ -1349,7 +1371,11 @@ def r3_length(L, repo):
                     ok = len(r) == 1 and r[0].val == direct
         L.ob(R, F, fn, "the encoding is the concatenation of every field's to_bytes(vals) in STRUCT order",
              "b''.join([f.to_bytes(vals) for f in self.STRUCT])", show(v) if shape == "join" else "loop: %s" % show(elt), ok, fd.lineno)
-    # ---- Sequence ----------------------------------------------------------
+
+
+def r3_sequence(L, repo):
+    """R3 (group: Sequence.__init__ / from_bytes / to_bytes)"""
+    R = "C16.R3"
     ci, fd = need(repo, "Sequence", "__init__")
     fn = "Sequence.__init__"
     L.fn(F, fn)
@@ -1408,7 +1434,11 @@ def r3_length(L, repo):
             if seqv[0] in ("list", "tuple", "k"):
                 L.ob(R, F, fn, key, "return <the list the items were appended to>", found, False, lp.node.lineno)
                 continue
-            raise AnalysisError("Sequence.from_bytes: returned value unclassifiable: %s" % show(seqv)[:60])
+            if not is_symbol(seqv):
+                raise AnalysisError("Sequence.from_bytes: returned value unclassifiable: %s" % show(seqv)[:60])
+            # one identity-bearing object that this call did not create (an argument, an attribute, a module-level
+            # name): the item bookkeeping below is decided on it as on a local list; whether that object may be
+            # returned at all (who owns it, does it start empty) is decided by R6 (result ownership)
         if len(apps) != 1 or len(apps[0][1]) != 4 or not decs or tgt is None:
             if not apps and tgt is not None and tgt[0] in ("dict", "obj"):
                 L.ob(R, F, fn, key, "one append of the decoded dict per iteration", found, False, lp.node.lineno)
@@ -1437,7 +1467,11 @@ def r3_length(L, repo):
         raise AnalysisError("Sequence.to_bytes: concatenation shape unclassifiable")
     L.require(R, F, "Sequence.to_bytes", "a sequence encodes as the concatenation of its items in list order", [show(want)],
               [show(o.val) if o.kind == "ret" else o.sig() for o in outs], line=fd.lineno)
-    # ---- nested wrappers ----------------------------------------------------
+
+
+def r3_nested(L, repo):
+    """R3 (group: the Envelope.F / Sequence.F field wrappers)"""
+    R = "C16.R3"
     for cls, inner, call_dec, call_enc in (
             ("Envelope.F", "self.e", "_from_bytes", "_to_bytes"), ("Sequence.F", "self.s", "from_bytes", "to_bytes")):
         ci, fd = need(repo, cls, "_from_bytes")
@@ -1469,7 +1503,6 @@ def r3_length(L, repo):
             if o.kind in ("fall", "ret"):
                 L.require(R, F, cls + ".__init__", "the wrapper keeps the wrapped codec it was given", "$inner",
                           show(o.st.env.get(V(inner), NONE)), line=fd.lineno)
-    return presence
 
 
 def r5_presence(L, repo, presence):
@@ -1480,7 +1513,11 @@ def r5_presence(L, repo, presence):
         L.require(R, F, fn, "the presence callback's result is compared with `is False` (only the bool False means absent)",
                   "is False", pres_kind(P), line=fd.lineno)
     L.floor(R, "presence tests (from_bytes, to_bytes)", n, 2)
-    # default callbacks installed by Field.__init__
+
+
+def r5_defaults(L, repo):
+    """R5 (group: default callbacks installed by Field.__init__)"""
+    R = "C16.R5"
     ci, fd = need(repo, "Field", "__init__")
     fn = "Field.__init__"
     L.fn(F, fn)
@@ -1565,6 +1602,11 @@ def r4_errors(L, repo):
         rs = sorted({canon(n.exc.func if isinstance(n.exc, ast.Call) else n.exc) for n in ast.walk(fd)
                      if isinstance(n, ast.Raise) and n.exc is not None})
         L.ob(R, F, fn, "the method itself raises only %s" % want_cls, [want_cls], rs, set(rs) <= {want_cls}, fd.lineno)
+
+
+def r4_classes(L, repo):
+    """R4 (group: explicit rejections use the codec's own error classes)"""
+    R = "C16.R4"
     for cls, meth, want_cls in (("Field", "from_bytes", "DecodeError"), ("Field", "to_bytes", "EncodeError"), ("BitField", "dec_val", "DecodeError")):
         ci, fd = need(repo, cls, meth)
         rs = sorted({canon(n.exc.func if isinstance(n.exc, ast.Call) else n.exc) for n in ast.walk(fd)
@@ -1575,7 +1617,12 @@ def r4_errors(L, repo):
     for e in ("DecodeError", "EncodeError", "ProtocolError"):
         c = repo.need_class("codec", e)
         L.require(R, F, e, "%s derives from Exception" % e, ["Exception"], c.bases, line=c.node.lineno)
-    # Spare / Buf
+
+
+def r4_spare_buf(L, repo):
+    """R4 (group: Spare ignores input and emits filler * len, Buf passes the slice through)"""
+    R = "C16.R4"
+    mod = repo.mod("codec")
     ci, fd = need(repo, "Spare", "_from_bytes")
     L.fn(F, "Spare._from_bytes")
     sx, outs = walk_method(fd, ["self", "vals", "data"])
@@ -1609,11 +1656,208 @@ def r4_errors(L, repo):
               [o.sig() for o in outs], line=fd.lineno)
 
 
+# ====================================================================== R6
+
+MUTABLE_CTORS = ("list", "dict", "set", "bytearray", "collections.deque", "deque")
+GROWERS = ("append", "extend", "insert")
+R6_KEY = ("the list that Sequence.from_bytes fills and returns is created by that very call - not one default-argument, "
+          "class-level or module-level object that still holds the items of earlier decodes")
+
+
+def is_symbol(t):
+    """a term that names one object the walked method did not create (argument, attribute, global)"""
+    return isinstance(t, tuple) and len(t) == 2 and t[0] == "v"
+
+
+def default_exprs(fd):
+    """parameter name -> default-value expression"""
+    a = fd.args
+    pos = list(getattr(a, "posonlyargs", [])) + list(a.args)
+    out = {}
+    for p, d in zip(pos[len(pos) - len(a.defaults):], a.defaults):
+        out[p.arg] = d
+    for p, d in zip(a.kwonlyargs, a.kw_defaults):
+        if d is not None:
+            out[p.arg] = d
+    return out
+
+
+def creates_mutable(e):
+    """True: evaluating e creates a mutable container (once, where the expression stands: a default argument is
+    evaluated when the function is defined, a class/module-level value when the class/module is); False: an
+    immutable constant; None: cannot tell"""
+    if isinstance(e, (ast.List, ast.Dict, ast.Set, ast.ListComp, ast.DictComp, ast.SetComp)):
+        return True
+    if isinstance(e, ast.Call) and canon(e.func) in MUTABLE_CTORS:
+        return True
+    if isinstance(e, ast.Constant):
+        return False
+    if isinstance(e, ast.Tuple) and all(creates_mutable(x) is False for x in e.elts):
+        return False
+    return None
+
+
+def path_events(o):
+    """events of an outcome, those of the loop bodies it ran through included"""
+    out = []
+
+    def rec(evs):
+        for e in evs:
+            if e[0] == "loop":
+                for b in e[1].outs:
+                    rec(b.st.events)
+            else:
+                out.append(e)
+    rec(o.st.events)
+    return out
+
+
+def uses_of(val, o):
+    """(method names called on the object `val`, other writes through it) along the path of outcome o"""
+    meths, writes = [], []
+    for e in path_events(o):
+        if e[0] in ("call", "eval", "expr") and isinstance(e[1], tuple):
+            for t in subterms(e[1]):
+                if t[0] == "mcall" and t[2] == val and t[1] not in meths:
+                    meths.append(t[1])
+                if t[0] in ("mcall", "call") and not (t[0] == "call" and t[1] == "len"):
+                    for x in t[3 if t[0] == "mcall" else 2:]:
+                        if x == val or (x[0] in ("kw", "star") and x[-1] == val):
+                            writes.append("passed to %s()" % t[1])      # the callee may do anything with it
+        if e[0] == "store" and e[1] != val and any(x == val for x in subterms(e[1])):
+            writes.append(show(e[1]))
+    return meths, writes
+
+
+def mentions_elsewhere(repo, fd, name):
+    """mentions of a module-level name / an attribute called `name` anywhere in the toolkit outside the method fd
+    (its definition included)"""
+    inside = {id(n) for n in ast.walk(fd)}
+    out = []
+    for m in repo.tk_modules():
+        for n in ast.walk(m.tree):
+            if id(n) in inside:
+                continue
+            if (isinstance(n, ast.Name) and n.id == name) or (isinstance(n, ast.Attribute) and n.attr == name) or \
+                    (isinstance(n, ast.Global) and name in n.names) or (isinstance(n, ast.alias) and name in (n.name, n.asname)) or \
+                    (isinstance(n, ast.Constant) and n.value == name):
+                out.append("%s:%d" % (m.name, getattr(n, "lineno", 0)))
+    return out
+
+
+def seq_owner(repo, ci, fd, o, roles):
+    """Who owns the object outcome o of Sequence.from_bytes returns:
+       ('fresh', text)    a list created by this call
+       ('caller', text)   an argument, on a path taken only when the caller supplied it
+       ('stale', text)    ONE object that outlives the call (default-argument object, class attribute, module-level
+                          object), never re-created or emptied, that every call only appends to
+       ('unknown', text)  anything else"""
+    val = o.val
+    if val[0] == "obj" and val[2] == ("list",):
+        return "fresh", "a list created during the call (local `%s`)" % val[1]
+    if not is_symbol(val):
+        return "unknown", "returned value %s" % show(val)[:60]
+    meths, writes = uses_of(val, o)
+    guards = [show(t) for t, _ in o.lits if t[0] not in ("exc", "inloop") and any(x == val for x in subterms(t))]
+    name = val[1]
+    a = fd.args
+    pnames = [p.arg for p in list(getattr(a, "posonlyargs", [])) + list(a.args) + list(a.kwonlyargs)]
+    if name in pnames and name not in params(fd)[:len(roles)]:
+        d = default_exprs(fd).get(name)
+        mut = creates_mutable(d) if d is not None else None
+        if d is not None and mut is False:
+            # e.g. `vseq=None`: the raw argument is returned only where the path excludes the default
+            if isinstance(d, ast.Constant) and d.value is None and (is_(val, NONE), False) in o.lits:
+                return "caller", "argument `%s`, on the path where the caller supplied it (default None excluded by the guard)" % name
+            return "unknown", "argument `%s` (default %s) returned without a guard that excludes the default" % (name, canon(d))
+        if mut is not True:
+            return "unknown", "argument `%s`%s" % (name, " (default %s)" % canon(d)[:40] if d is not None else " (no default)")
+        what = "the default-argument object of parameter `%s` (= %s, evaluated once when the method is defined)" % (name, canon(d))
+        # who relies on the default: the field wrapper Sequence.F._from_bytes
+        wci, wfd = need(repo, "Sequence.F", "_from_bytes")
+        _, wouts = walk_method(wfd, ["self", "vals", "data"])
+        sites = [c for w in wouts for c in w.all_calls() if c[0] == "mcall" and c[1] == fd.name and c[2] == V("self.s")]
+        if not sites:
+            return "unknown", what + "; no call from Sequence.F._from_bytes found"
+        posidx = params(fd).index(name) - 1 if name in params(fd) else None
+        for c in sites:
+            pos = [x for x in c[3:] if x[0] not in ("kw", "star")]
+            if any(x[0] == "star" or (x[0] == "kw" and x[1] in (None, name)) for x in c[3:]) or \
+                    (posidx is not None and len(pos) > posidx):
+                return "unknown", what + "; Sequence.F._from_bytes passes its own object for it"
+        what += "; Sequence.F._from_bytes calls %s(data) without that argument" % fd.name
+    elif "." not in name:
+        r = repo.lookup(ci.mod, name)
+        if r is None or r[0] != "const" or creates_mutable(r[1]) is not True:
+            return "unknown", "name `%s`" % name
+        other = mentions_elsewhere(repo, fd, name)
+        if len(other) != 1:
+            return "unknown", "module-level object `%s`, also used at %s" % (name, other[:4])
+        what = "the module-level object `%s` (= %s, created once at import, used nowhere else)" % (name, canon(r[1]))
+    elif name.startswith("self.") and name.count(".") == 1:
+        attr = name[5:]
+        c, v = repo.find_attr(ci, attr)
+        if v is None or creates_mutable(v) is not True:
+            return "unknown", "attribute `%s`" % name
+        other = mentions_elsewhere(repo, fd, attr)
+        if len(other) != 1:
+            return "unknown", "class attribute `%s.%s`, also used at %s" % (c.name, attr, other[:4])
+        what = "the class attribute `%s.%s` (= %s, one object shared by all instances, assigned nowhere else)" % (c.name, attr, canon(v))
+    else:
+        return "unknown", "object `%s`" % name
+    # one long-lived object: stale content is certain only if this call never re-creates / empties / tests it and
+    # does nothing but grow it
+    if guards:
+        return "unknown", what + ", returned under the test %s" % guards[:2]
+    if writes or not meths or any(m not in GROWERS for m in meths):
+        return "unknown", what + ", used through %s" % (meths + writes)[:4]
+    return "stale", what + "; every call only does %s on it" % "/".join(meths)
+
+
+def r6_ownership(L, repo, R="C16.R6", key=R6_KEY):
+    """R6 result ownership.  Clause decided: "decoding the encoding of in-range values returns those values" for
+    EVERY decode of a definition with a sequence, not only the first one in a process (C17.R5 uses the same
+    function for "a version-2 PDU with any number of batched sub-PDUs round-trips with every sub-PDU intact").
+    Necessary condition: the list Sequence.from_bytes fills and returns is an object created by that call (or
+    handed in by the caller of that call).  If it is one object that outlives the call - the default-argument
+    object of a parameter the callers omit, a class attribute or a module-level object, never re-created or
+    emptied - and each call only appends to it, the second decode also returns the items of the first one:
+    decode(encode(v)) != v.  The object is identified through the walker's environment (aliases, temporaries and
+    statement order do not matter), its origin is resolved on the definitions (default expression, class body,
+    module level, all mentions in the toolkit).  Anything that cannot be resolved this far is no verdict."""
+    roles = ["self", "data"]
+    ci, fd = need(repo, "Sequence", "from_bytes")
+    fn = "Sequence.from_bytes"
+    L.fn(F, fn)
+    sx, outs = walk_method(fd, roles)
+    n = 0
+    for o in outs:
+        if o.kind != "ret":
+            continue
+        kind, text = seq_owner(repo, ci, fd, o, roles)
+        if kind == "unknown":
+            raise AnalysisError("Sequence.from_bytes: ownership of the returned list unclassifiable: %s" % text[:200])
+        n += 1
+        L.ob(R, F, fn, key, "a list created during the call (or passed in by the caller of this call)", text,
+             kind in ("fresh", "caller"), o.node.lineno if o.node is not None else fd.lineno)
+    L.floor(R, "return paths of Sequence.from_bytes", n, 1)
+
+
 def run(L, tier):
     repo = Repo(L.repo)
     L.unit(F)
-    r1_bitfields(L, repo)
-    r2_integers(L, repo)
-    presence = r3_length(L, repo)
-    r4_errors(L, repo)
-    r5_presence(L, repo, presence)
+    L.stage(r1_set_init, L, repo)
+    L.stage(r1_field_pair, L, repo)
+    L.stage(r1_set_pack, L, repo)
+    L.stage(r2_pair, L, repo)
+    L.stage(r2_class_table, L, repo)
+    presence = L.stage(r3_field, L, repo)
+    L.stage(r3_envelope, L, repo)
+    L.stage(r3_sequence, L, repo)
+    L.stage(r3_nested, L, repo)
+    L.stage(r4_errors, L, repo)
+    L.stage(r4_classes, L, repo)
+    L.stage(r4_spare_buf, L, repo)
+    L.stage(r5_presence, L, repo, presence)
+    L.stage(r5_defaults, L, repo)
+    L.stage(r6_ownership, L, repo)
